@@ -157,6 +157,8 @@ class OutgoingBallsHandler(BallDeviceStateHandler):
             await self._handle_eject_success(eject_request)
             incoming_skipping_ball.ball_arrived()
             if add_ball_to_target:
+                # the ball which skipped us was available here. it is available at the target now
+                self.ball_device.available_balls -= 1
                 target.available_balls += 1
             return True
 
